@@ -1,6 +1,6 @@
 (* Property theorems for C13 -- statements only; proofs are `exact` of lemmas. *)
 From Coq Require Import ZArith List Bool Lia.
-From GD Require Import C04.Bytes C13.Recode C13.RecodeProofs.
+From GD Require Import C04.Bytes C13.Recode C13.RecodeProofs C13.Drivers C13.DriversProofs.
 Import ListNotations.
 
 (* recoding between any two codecs (none, gzip, bzip2, lzma, sie, text), any pair of byte
@@ -34,6 +34,57 @@ Theorem spf_change_matches_statement : forall (A : Type) (dflt : A) o n nf (chun
   nth (q * n + j) (spf_convert_chunk dflt o n chunk) dflt = spf_spec_sample dflt o n chunk q j.
 Proof. exact @spf_convert_matches_spec. Qed.
 
+(* ---- the per-fragment drivers (_GD_RecodeFragment, _GD_ByteSwapFragment, _GD_ShiftFragment), lifted
+   over the list of fields of a database; `fail` is an arbitrary I/O failure of _GD_MogrifyFile ---- *)
+Theorem fragment_driver_all_or_nothing : forall h ns fail g new d,
+  snd (restructure h ns fail g new d) = true -> fst (restructure h ns fail g new d) = d.
+Proof. exact restructure_all_or_nothing. Qed.
+
+Theorem fragment_driver_preserves_every_field : forall h ns, 1 <= ns -> forall fail g new d,
+  db_ok d -> g < length (frags d) -> (0 <= c_off new)%Z ->
+  let d' := fst (restructure h ns fail g new d) in
+  db_ok d' /\ length (frags d') = length (frags d) /\
+  forall i f, find_field d i = Some f ->
+    exists f', find_field d' i = Some f' /\ fty f' = fty f /\ fspf f' = fspf f /\ ffrag f' = ffrag f /\
+      forall k, (ffrag f = g -> (c_off new * Z.of_nat (fspf f) <= k)%Z) -> view d' f' k = view d f k.
+Proof. exact restructure_preserves. Qed.
+
+Theorem all_fragments_driver_preserves_every_field : forall h ns, 1 <= ns -> forall fail upd gs,
+  (forall c, c_off (upd c) = c_off c) ->
+  forall d, db_ok d -> Forall (fun g => g < length (frags d)) gs ->
+  let d' := fst (restructure_all h ns fail upd gs d) in
+  db_ok d' /\ length (frags d') = length (frags d) /\
+  forall i f, find_field d i = Some f ->
+    exists f', find_field d' i = Some f' /\ fty f' = fty f /\ fspf f' = fspf f /\ ffrag f' = ffrag f /\
+      forall k, view d' f' k = view d f k.
+Proof. exact restructure_all_preserves. Qed.
+
+Theorem move_with_data_preserves : forall h ns, 1 <= ns -> forall fail i g' d f,
+  db_ok d -> g' < length (frags d) -> find_field d i = Some f ->
+  let d' := fst (move_field h ns fail i g' d) in
+  exists f', find_field d' i = Some f' /\
+    forall k, (c_off (frag_cfg d g') * Z.of_nat (fspf f) <= k)%Z \/ snd (move_field h ns fail i g' d) = true ->
+              view d' f' k = view d f k.
+Proof. exact move_preserves. Qed.
+
+Theorem rename_with_data_preserves : forall i j d f,
+  NoDup (map fid (fields d)) -> ~ In j (map fid (fields d)) -> find_field d i = Some f ->
+  exists f', find_field (rename_field i j d) j = Some f' /\ forall k, view (rename_field i j d) f' k = view d f k.
+Proof. exact rename_preserves. Qed.
+
+Theorem rename_keeps_referring_fields : forall i j d n p f,
+  NoDup (map fid (fields d)) -> ~ In j (map fid (fields d)) ->
+  n <> i -> find (fun p => fst p =? n) (derived d) = Some p -> ~ In j (map fst (derived d)) ->
+  find_field d (snd p) = Some f ->
+  forall k, derived_view (rename_field i j d) n k = derived_view d n k.
+Proof. exact (rename_preserves_references 1 (le_n 1)). Qed.
+
 (* the hypotheses are satisfiable *)
+Example db_ok_inhabited : db_ok (mkDb [mkCfg Bin SexBig 1; mkCfg Text SexLittle 0] [mkField 7 0 UINT16 1 [[1%Z]]; mkField 9 1 UINT8 2 []] [(3, 7)]).
+Proof.
+  split; [repeat constructor; cbn; intuition lia|].
+  split; repeat constructor; cbn; lia.
+Qed.
+
 Example wf_inhabited : Forall (wf_sample UINT16) [[1%Z]; [258%Z]].
 Proof. repeat constructor; cbn; lia. Qed.
